@@ -160,3 +160,69 @@ def defining_text(fn_node, name: str, depth=3) -> str:
                         t += ' <- ' + sub
             out.append(t)
     return ' | '.join(out)
+
+
+# ------------------------------------------------------------------ nearest definitions (name resolution at a site)
+def block_chains(fn_node) -> Dict[int, List[Tuple[list, int]]]:
+    """id(statement) -> [(block, index)] from the innermost enclosing block outwards"""
+    out: Dict[int, List[Tuple[list, int]]] = {}
+
+    def rec(block, chain):
+        for i, st in enumerate(block):
+            out[id(st)] = [(block, i)] + chain
+            for fld in ('body', 'orelse', 'finalbody'):
+                b = getattr(st, fld, None)
+                if isinstance(b, list) and b and isinstance(b[0], ast.stmt) and not isinstance(st, (ast.FunctionDef, ast.AsyncFunctionDef, ast.ClassDef)):
+                    rec(b, [(block, i)] + chain)
+            if isinstance(st, ast.Try):
+                for h in st.handlers:
+                    rec(h.body, [(block, i)] + chain)
+    rec(fn_node.body, [])
+    return out
+
+
+def nearest_def(fn_node, stmt, name: str, chains=None) -> Optional[ast.AST]:
+    """value of the closest assignment `name = <value>` that precedes `stmt` in its own block or in an enclosing one"""
+    chains = chains or block_chains(fn_node)
+    for block, idx in chains.get(id(stmt), []):
+        for j in range(idx - 1, -1, -1):
+            s = block[j]
+            if isinstance(s, ast.Assign) and len(s.targets) == 1 and isinstance(s.targets[0], ast.Name) and s.targets[0].id == name:
+                return s.value
+            # a compound statement that (re)binds the name hides earlier definitions
+            if not isinstance(s, (ast.Assign, ast.Expr)) and any(isinstance(n, ast.Name) and n.id == name and isinstance(n.ctx, ast.Store) for n in ast.walk(s)):
+                return None
+    return None
+
+
+def expand_names(fn_node, stmt, expr, depth=3, chains=None):
+    """expr with local names replaced by their nearest simple definitions (slices, attributes, names, calls of
+    pure-looking methods); used to compare expressions written through different intermediate locals"""
+    import copy as _copy
+    chains = chains or block_chains(fn_node)
+    params = {a.arg for a in ast.walk(fn_node.args) if isinstance(a, ast.arg)}
+
+    class R(ast.NodeTransformer):
+        def visit_Name(self, n):
+            if isinstance(n.ctx, ast.Load) and n.id not in params and depth > 0:
+                v = nearest_def(fn_node, stmt, n.id, chains)
+                if v is not None and isinstance(v, (ast.Subscript, ast.Attribute, ast.Name, ast.Call, ast.BinOp, ast.Compare, ast.BoolOp)):
+                    return expand_names(fn_node, stmt, _copy.deepcopy(v), depth - 1, chains)
+            return n
+    return R().visit(_copy.deepcopy(expr))
+
+
+def nearest_store(fn_node, stmt, target_text: str, chains=None) -> Optional[ast.AST]:
+    """value of the closest preceding assignment whose target text is `target_text` (names, subscripts, attributes)"""
+    chains = chains or block_chains(fn_node)
+    for block, idx in chains.get(id(stmt), []):
+        for j in range(idx - 1, -1, -1):
+            s = block[j]
+            if isinstance(s, ast.Assign) and len(s.targets) == 1 and unparse(s.targets[0]) == target_text:
+                return s.value
+    return None
+
+
+def yield_tuples(fn_node):
+    """[(statement, Facts)] for `yield (a, b)` statements"""
+    return facts_where(fn_node, lambda st: isinstance(st, ast.Expr) and isinstance(st.value, ast.Yield) and isinstance(st.value.value, ast.Tuple))
